@@ -46,9 +46,9 @@ def build_case(cid, b, rng, channel=None):
     return {"id": cid, "kind": "c12", "abs": {"kind": "build", "build": b}, "args": args}
 
 
-def str_case(cid, chars, rng, channel=None):
+def str_case(cid, chars, rng, channel=None, warm=None):
     return {"id": cid, "kind": "c12", "abs": {"kind": "str", "input": list(chars)},
-            "args": {"mode": "str", "channel": channel or rng.choice(STR_CHANNELS), "s": "".join(chars)}}
+            "args": {"mode": "str", "channel": channel or rng.choice(STR_CHANNELS), "s": "".join(chars), "warm": warm or []}}
 
 
 DUMMY_BUILD = {"twp": {"e": "none"}, "rge": {"e": "none"}, "sec": {"e": "none"}, "dns": "unset", "dew": "unset", "ocr": False}
@@ -130,6 +130,14 @@ def run(ctx):
         for ch in STR_CHANNELS:
             cases.append(str_case("f%d" % k, list(s), ctx.rng, channel=ch))
             k += 1
+    # strings that differ only in letter case, one right after the other in the same process (what a string means must
+    # not depend on which spelling the cache has seen first)
+    for s in ["XXXz97w14", "154nXXXz14", "154n97wXX", "___z97w__", "___z___z__", "154n97w14", "XXXzXXXzXX"]:
+        for v in {s.lower(), s.upper(), s.swapcase()} - {s}:
+            for ch in STR_CHANNELS:
+                cases.append(str_case("f%d" % k, list(v), ctx.rng, channel=ch, warm=[s]))
+                cases.append(str_case("f%d" % (k + 1), list(s), ctx.rng, channel=ch, warm=[v]))
+                k += 2
     ctx.exhaustive = thorough
     check(ctx, cases)
     # code -> spec beyond the bound: arbitrary numbers, double edits, random strings
